@@ -35,6 +35,29 @@ def gen_c12_tables():
     return _CACHE["c12"]
 
 
+def gen_ctors():
+    if "ctors" not in _CACHE:
+        from props import ctor_gen
+        _CACHE["ctors"] = ctor_gen.generate()
+    return _CACHE["ctors"]
+
+
+CTOR_MODULES = ["BemppVerif.Gen.CtorTable", "BemppVerif.Props.Ctors"]
+CTOR_SPEC = ["BemppVerif.Ctors." + t for t in (
+    "helmholtz_imag_is_modified", "helmholtz_keeps_complex_wavenumber", "no_dispatch_far_field_maxwell",
+    "hypersingular_uses_single_layer_kernel", "maxwell_kernel_and_dimension", "singular_part_and_dtype")]
+CTOR_TRUSTED = ("constructor tie (props/ctor_gen.py): the descriptors are recorded from the real constructors for a fixed set "
+                "of wavenumber probes and parsed into the structured names of Model/Ctor.lean (round trip checked); the "
+                "theorems ctor_<group> state recorded = spec for those probes, the general theorems of Props/Ctors.lean are "
+                "about spec")
+
+
+def ctor_theorems(*groups):
+    """Generated theorems `ctor_<group>` (recorded descriptors = specification) for the given constructor groups."""
+    info, thms = gen_ctors()
+    return [t for t in thms if t.split(".")[-1][len("ctor_"):] in groups]
+
+
 def asm_theorems(*prefixes):
     """Names of the generated AsmMatch theorems whose short name starts with one of the prefixes."""
     info, thms = gen_asm()
